@@ -6,22 +6,22 @@ func init() {
 		"reference models of DESIGN.md §7 encode the property statement",
 		"sampling, not enumeration: only the DFS-root rotations are complete per model",
 	}
-	specs["C04"] = &propSpec{engine: "wgsim", quickN: 20000, thorN: 500000, quickS: 60, thorS: 1500,
+	specs["C04"] = &propSpec{engine: "wgsim", quickN: 16000, thorN: 400000, quickS: 60, thorS: 1500,
 		rule:    "one workload = one generated model; one evaluation = one Build of it under one schedule of the family {canonical, reverse-all, lastfirst-all, rotate-all-k and rotate-root-k for every k < #nodes, random tapes over all map sites + ULID clock faults}; distinct = distinct seam-event-log fingerprint; non-trivial = the model has a cycle or an intersection/exclusion AND at least one fault fired in the run",
 		mustHit: []string{"map.rotate", "map.reverse", "map.shuffle"}, assume: wgAssume}
-	specs["C05"] = &propSpec{engine: "wgsim", quickN: 20000, thorN: 500000, quickS: 60, thorS: 1500,
+	specs["C05"] = &propSpec{engine: "wgsim", quickN: 16000, thorN: 400000, quickS: 60, thorS: 1500,
 		rule: specs["C04"].rule, mustHit: []string{"map.rotate", "map.reverse", "map.shuffle"}, assume: wgAssume}
 	specs["C06"] = &propSpec{engine: "wgsim", quickN: 16000, thorN: 400000, quickS: 60, thorS: 1500,
 		rule:    specs["C04"].rule + "; plus permuted type definitions, permuted commutative operands, and 2-3 concurrent builder tasks under seeded preemption",
 		mustHit: []string{"map.rotate", "map.reverse", "map.shuffle", "deliver.permute", "preempt"}, assume: wgAssume}
-	specs["C10"] = &propSpec{engine: "wgsim", quickN: 20000, thorN: 500000, quickS: 60, thorS: 1500,
+	specs["C10"] = &propSpec{engine: "wgsim", quickN: 16000, thorN: 400000, quickS: 60, thorS: 1500,
 		rule: specs["C04"].rule, mustHit: []string{"map.rotate", "clock.back", "clock.stall"}, assume: wgAssume}
-	specs["C11"] = &propSpec{engine: "wgsim", quickN: 20000, thorN: 500000, quickS: 60, thorS: 1500,
+	specs["C11"] = &propSpec{engine: "wgsim", quickN: 16000, thorN: 400000, quickS: 60, thorS: 1500,
 		rule: specs["C04"].rule, mustHit: []string{"map.rotate", "map.reverse", "map.shuffle"}, assume: wgAssume}
 }
 
 func init() {
-	specs["C17"] = &propSpec{engine: "plainsim", quickN: 6000, thorN: 120000, quickS: 60, thorS: 1500,
+	specs["C17"] = &propSpec{engine: "plainsim", quickN: 5000, thorN: 120000, quickS: 60, thorS: 1500,
 		rule:    "one workload = one generated model (any rewrite shape, multi-line node pairs and computed-only cycles biased in); one evaluation = build + DOT + Reversed + Reversed twice + all-pairs PathExists + label lookup + GetCycles under one schedule over the gonum map iterators / map ranges and the ULID clock; distinct = distinct seam-event-log fingerprint; non-trivial = two lines join one node pair or the model has a cycle, AND at least one fault fired",
 		mustHit: []string{"map.reverse", "map.rotate", "map.shuffle", "clock.back"},
 		assume:  []string{"the gonum iterator overlay (sorted + permuted keys instead of reflect.MapIter) only produces orders the runtime may produce", "reference plain graph of DESIGN.md §7.7 encodes the statement", "edge conditions are not observable through the plain graph's API and are not compared"}}
